@@ -25,6 +25,7 @@ _RD_TEXT = {
     "NS": "ns%d.other.",
     "A": "10.0.0.%d",
     "TXT": '"t%d"',
+    "CNAME": "target%d.other.",
     "SOA": "ns.other. admin.other. %d 3600 600 86400 300",
 }
 _rd_cache = {}
